@@ -22,6 +22,7 @@ import (
 	"fmt"
 	"math/rand"
 	"os"
+	"runtime/debug"
 	"sort"
 	"strconv"
 	"strings"
@@ -109,31 +110,32 @@ type vAckKey struct {
 }
 
 type vAckRun struct {
-	v        *vSeq
-	ch       *AofChannel
-	rm       *ReplicationManager
-	adb      *ReplicationAckDB
-	out      *vOut
-	r        *rand.Rand
-	keys     []int
+	v                        *vSeq
+	ch                       *AofChannel
+	rm                       *ReplicationManager
+	adb                      *ReplicationAckDB
+	out                      *vOut
+	r                        *rand.Rand
+	keys                     []int
 	followers, mode, aofTime int
-	evs      []vAckEv
-	obs      []string
-	journal  map[int][]*vAckJRec
-	nextId   int
-	idBuf    map[int][]byte   // id → encoded 64-byte record (what lockAcked is handed)
-	idAof    map[int][16]byte // id → 16-byte aof id (what a follower echoes as RequestId)
-	idReq    map[int]int      // id → RequestId of the lock command registered under it (0: not an ack LOCK record)
-	idKey    map[int]int
-	replies  []vReply
-	leader   bool
-	closed   bool
-	mon      *vAckMon
-	nextReq  int
-	pinned   []*LockManager
-	jord     int
-	tainted  bool // a lock object's reference count was left wrong by the real code (re-entrant require-ack LOCK, PW): the instance is not reused
-	abort    bool // the real state left what the model can follow (a freed lock object is still referenced): stop the history
+	evs                      []vAckEv
+	obs                      []string
+	journal                  map[int][]*vAckJRec
+	nextId                   int
+	idBuf                    map[int][]byte   // id → encoded 64-byte record (what lockAcked is handed)
+	idAof                    map[int][16]byte // id → 16-byte aof id (what a follower echoes as RequestId)
+	idReq                    map[int]int      // id → RequestId of the lock command registered under it (0: not an ack LOCK record)
+	idKey                    map[int]int
+	replies                  []vReply
+	leader                   bool
+	closed                   bool
+	mon                      *vAckMon
+	nextReq                  int
+	pinned                   []*LockManager
+	jord                     int
+	probe                    bool // the history uses value frames outside M-ACK's subset (SHIFT / PUSH / POP): run for the monitors only, not compared
+	tainted                  bool // a lock object's reference count was left wrong by the real code (re-entrant require-ack LOCK, PW): the instance is not reused
+	abort                    bool // the real state left what the model can follow (a freed lock object is still referenced): stop the history
 }
 
 func (x *vAckRun) keySnap(key int) vAckKey {
@@ -333,8 +335,58 @@ func vAckFrame(kind string, payload []byte) []byte {
 	case "append":
 		n := len(payload) + 2
 		return append([]byte{byte(n), byte(n >> 8), 0, 0, protocol.LOCK_DATA_COMMAND_TYPE_APPEND, 0}, payload...)
+	case "shift":
+		return protocol.NewLockCommandDataShiftData(uint32(payload[0])).Data
+	case "push":
+		return protocol.NewLockCommandDataPushData(payload).Data
+	case "pop":
+		return protocol.NewLockCommandDataPopData(uint32(payload[0])).Data
+	case "setarray":
+		return protocol.NewLockCommandDataSetArray([][]byte{payload, {'q'}}).Data
 	}
 	return nil
+}
+
+// vAckPipeline: a PIPELINE frame holding the given sub-frames
+func vAckPipeline(subs ...[]byte) []byte {
+	var ds []*protocol.LockCommandData
+	for _, f := range subs {
+		ds = append(ds, protocol.NewLockCommandDataFromOriginBytes(f))
+	}
+	return protocol.NewLockCommandDataPipelineData(ds).Data
+}
+
+// vAckSimpleFrame: is f a frame M-ACK models on its own (SET / INCR with 8-byte operand / APPEND, stage 0, no property, no first-or-last)
+func vAckSimpleFrame(f []byte) bool {
+	if len(f) < 6 || f[4]>>6 != 0 || f[5]&0x30 != 0 {
+		return false
+	}
+	switch f[4] & 0x3f {
+	case protocol.LOCK_DATA_COMMAND_TYPE_SET, protocol.LOCK_DATA_COMMAND_TYPE_APPEND:
+		return true
+	case protocol.LOCK_DATA_COMMAND_TYPE_INCR:
+		return len(f) == 14
+	}
+	return false
+}
+
+// vAckInSubset: SET / INCR / APPEND, or a PIPELINE that is exactly the concatenation of 1 or more of them
+func vAckInSubset(f []byte) bool {
+	if len(f) >= 6 && f[4] == protocol.LOCK_DATA_COMMAND_TYPE_PIPELINE && f[5] == 0 {
+		buf, n := f[6:], 0
+		for len(buf) > 0 {
+			if len(buf) < 4 {
+				return false
+			}
+			l := int(buf[0]) | int(buf[1])<<8 | int(buf[2])<<16 | int(buf[3])<<24
+			if 4+l > len(buf) || !vAckSimpleFrame(buf[:4+l]) {
+				return false
+			}
+			buf, n = buf[4+l:], n+1
+		}
+		return n >= 1
+	}
+	return vAckSimpleFrame(f)
 }
 
 func (x *vAckRun) apply(e *vAckEv) string {
@@ -635,12 +687,13 @@ func vAckParseEv(s string) (vAckEv, bool) {
 // generator
 
 type vAckGen struct {
-	x       *vAckRun
-	r       *rand.Rand
-	nconn   int
-	nids    int
-	profile int
-	maxT    int
+	probe     bool
+	x         *vAckRun
+	r         *rand.Rand
+	nconn     int
+	nids      int
+	profile   int
+	maxT      int
 	aofedSent map[int]bool
 	ackedSent map[[2]int]bool
 }
@@ -672,13 +725,41 @@ func (g *vAckGen) lockEv() vAckEv {
 	e := vAckEv{kind: "L", op: o}
 	if r.Intn(100) < 40 {
 		e.op.flag |= 0x20
-		switch r.Intn(3) {
-		case 0:
-			e.frame = vAckFrame("set", vRandBytes(r, 1+r.Intn(9)))
-		case 1:
-			e.frame = vAckFrame("incr", []byte{byte(1 + r.Intn(250)), byte(r.Intn(3))})
-		default:
-			e.frame = vAckFrame("append", vRandBytes(r, 1+r.Intn(5)))
+		simple := func() []byte {
+			switch r.Intn(3) {
+			case 0:
+				return vAckFrame("set", vRandBytes(r, 1+r.Intn(9)))
+			case 1:
+				return vAckFrame("incr", []byte{byte(1 + r.Intn(250)), byte(r.Intn(3))})
+			}
+			return vAckFrame("append", vRandBytes(r, 1+r.Intn(5)))
+		}
+		extended := func() []byte { // outside M-ACK's subset: probe histories only
+			switch r.Intn(5) {
+			case 0:
+				return vAckFrame("shift", []byte{byte(1 + r.Intn(3))})
+			case 1:
+				return vAckFrame("push", vRandBytes(r, 1+r.Intn(4)))
+			case 2:
+				return vAckFrame("pop", []byte{byte(1 + r.Intn(2))})
+			case 3:
+				return vAckFrame("setarray", vRandBytes(r, 1+r.Intn(4)))
+			}
+			return simple()
+		}
+		e.frame = simple()
+		if r.Intn(100) < 30 { // PIPELINE of 2..3 sub-operations
+			var subs [][]byte
+			for i, k := 0, 2+r.Intn(2); i < k; i++ {
+				if g.probe {
+					subs = append(subs, extended())
+				} else {
+					subs = append(subs, simple())
+				}
+			}
+			e.frame = vAckPipeline(subs...)
+		} else if g.probe && r.Intn(100) < 30 {
+			e.frame = extended()
 		}
 	}
 	return e
@@ -884,6 +965,18 @@ func vAckRunOne(in *vAckInst, x *vAckRun, body func()) string {
 		defer func() {
 			if e := recover(); e != nil {
 				bad = fmt.Sprintf("panic: %v", e)
+				if st := string(debug.Stack()); strings.Contains(st, "ProcessRecoverLockData") {
+					where := ""
+					if i := strings.Index(st, "ProcessRecoverLockData"); i >= 0 {
+						if ls := strings.SplitN(st[i:], "\n", 3); len(ls) >= 2 {
+							f := strings.Fields(strings.TrimSpace(ls[1]))
+							if len(f) > 0 {
+								where = " " + f[0][strings.LastIndex(f[0], "/")+1:]
+							}
+						}
+					}
+					bad += " [in ProcessRecoverLockData" + where + "]"
+				}
 			}
 			close(done)
 		}()
@@ -909,14 +1002,31 @@ func vAckMain(t *testing.T) {
 	finish := func(x *vAckRun, now0 int64, bad string) {
 		line := x.line(now0)
 		x.mon.line = line
+		for _, e := range x.evs {
+			if e.frame != nil && !vAckInSubset(e.frame) {
+				x.probe = true
+			}
+		}
+		if x.probe {
+			out.stat("probe-history(frames-outside-the-model-subset:monitors-only)")
+		}
 		if bad != "" {
-			out.emit(line, strings.Join(x.obs, ";")+";"+bad)
-			out.monitor("C11:engine-"+strings.Fields(bad)[0], "the real engine "+bad+" during an ack history", map[string]interface{}{"ops": line})
+			if !x.probe {
+				out.emit(line, strings.Join(x.obs, ";")+";"+bad)
+			}
+			if strings.Contains(bad, "ProcessRecoverLockData") {
+				// the undo of a failed ack lock (DoAckLock failure exit / doTimeOut) panicked: in the server this goroutine has no recover()
+				out.monitor("C13:ack-recover-panic", "ProcessRecoverLockData panicked while undoing the value operation of a failed require-ack LOCK: "+strings.SplitN(bad, "\n", 2)[0], map[string]interface{}{"ops": line})
+			} else {
+				out.monitor("C11:engine-"+strings.Fields(bad)[0], "the real engine "+bad+" during an ack history", map[string]interface{}{"ops": line})
+			}
 			x.mon.flush()
 			in = vAckNewInst() // the old instance may hold a mutex
 			return
 		}
-		out.emit(line, strings.Join(x.obs, ";"))
+		if !x.probe {
+			out.emit(line, strings.Join(x.obs, ";"))
+		}
 		x.mon.flush()
 		for i, e := range x.evs {
 			if e.kind == "PW" {
@@ -1006,7 +1116,7 @@ func vAckMain(t *testing.T) {
 		mode := r.Intn(2)
 		aofTime := 200
 		x := in.newRun(out, r, keys, followers, mode, aofTime, nextReq)
-		g := &vAckGen{x: x, r: r, nconn: 2 + r.Intn(3), nids: 2 + r.Intn(2), profile: []int{0, 0, 1, 2}[it%4]}
+		g := &vAckGen{x: x, r: r, nconn: 2 + r.Intn(3), nids: 2 + r.Intn(2), profile: []int{0, 0, 1, 2}[it%4], probe: it%9 == 8 && os.Getenv("VERIF_ACK_NOPROBE") == ""}
 		now0 := in.v.db.currentTime
 		steps := 12 + r.Intn(vEnvInt("VERIF_OPS", 40))
 		bad := vAckRunOne(in, x, func() {
@@ -1031,19 +1141,19 @@ func init() {
 // monitors: the statement of C11 evaluated on what the REAL code did. Signatures are "C11:<clause>:<cause>".
 
 type vAckReq struct {
-	ev        vAckEv
-	isAck     bool
-	terminal  []vReply
-	pendEv    int // index of the event in which the request became an ack-pending hold (-1: never)
-	fresh     bool
-	preVal    []byte
-	applied   bool // it carried a value frame the engine applied at the grant
-	dirty     bool // another operation changed the key's value while it was pending
-	id        int  // journal id its LOCK record was delivered under (0: not delivered)
-	settled   bool
-	byFirst   bool // its pending hold was removed by an unlock-first request
-	preUnset  bool // the key had an UNSET cell (present, no data) before the grant
-	touched   bool // another request carried a value frame to the same key while this one was pending (even if it left the bytes alone)
+	ev       vAckEv
+	isAck    bool
+	terminal []vReply
+	pendEv   int // index of the event in which the request became an ack-pending hold (-1: never)
+	fresh    bool
+	preVal   []byte
+	applied  bool // it carried a value frame the engine applied at the grant
+	dirty    bool // another operation changed the key's value while it was pending
+	id       int  // journal id its LOCK record was delivered under (0: not delivered)
+	settled  bool
+	byFirst  bool // its pending hold was removed by an unlock-first request
+	preUnset bool // the key had an UNSET cell (present, no data) before the grant
+	touched  bool // another request carried a value frame to the same key while this one was pending (even if it left the bytes alone)
 }
 
 type vAckMon struct {
@@ -1234,6 +1344,8 @@ func (m *vAckMon) onReply(rp vReply) {
 					cause = "cell-was-unset"
 				case vAckOpName(ri.ev.frame) == "incr" && !(len(ri.preVal) == 14 && ri.preVal[0] == 10 && ri.preVal[4] == 0 && ri.preVal[5] == 1):
 					cause = "operand-not-a-number-cell"
+				case (vAckOpName(ri.ev.frame) == "push" || vAckOpName(ri.ev.frame) == "pop") && !(len(ri.preVal) >= 6 && ri.preVal[5]&protocol.LOCK_DATA_FLAG_VALUE_TYPE_ARRAY != 0):
+					cause = "cell-was-not-an-array" // probe histories only (PUSH / POP are outside M-ACK's subset)
 				}
 				m.report(fmt.Sprintf("C11:value-not-restored:%s:%s", vAckOpName(ri.ev.frame), cause), fmt.Sprintf("require-ack LOCK request %d failed with result %d; the key's value before its grant was %x, after the failure it is %x (frame %s, no other operation changed the value in between)", rp.req, rp.result, ri.preVal, ks.data, ri.ev.fhex))
 			}
@@ -1252,6 +1364,14 @@ func vAckOpName(f []byte) string {
 		return "incr"
 	case 3:
 		return "append"
+	case 4:
+		return "shift"
+	case 6:
+		return "pipeline"
+	case 7:
+		return "push"
+	case 8:
+		return "pop"
 	}
 	return fmt.Sprint(f[4] & 0x3f)
 }
